@@ -1,2 +1,13 @@
 import Proofs.C01
-#print axioms C01.write_err_silent
+#print axioms C01.writer_state_tracks_config
+#print axioms C01.writer_state_tracks_config_history
+#print axioms C01.writer_reader_inv
+#print axioms C01.roundtrip_history
+#print axioms C01.roundtrip_lines
+#print axioms C01.internal_never_file
+#print axioms C01.roundtrip_text_partial
+#print axioms C01.writeFileConfig_spec
+#print axioms C01.history_lines
+#print axioms C01.history_clean
+#print axioms C01.decodeRune_cut
+#print axioms C01.fmtInt_token
